@@ -34,6 +34,12 @@ fn observe_tx(tx: &MultiEraTx, tix: usize, out: &mut Observed, counts: &mut Vec<
     for x in d.iter() {
         out.ids.push(("witness-datum", tix, x.original_hash().to_vec()));
     }
+    // the second entry point: looking a datum up by its identifier must find a datum with
+    // that identifier (an empty id = not found)
+    for x in d.iter() {
+        let found = tx.find_plutus_data(&x.original_hash());
+        out.ids.push(("witness-datum-lookup", tix, found.map(|f| f.original_hash().to_vec()).unwrap_or_default()));
+    }
     counts.push(("witness-datum", tix, d.len()));
     let n = tx.native_scripts();
     for x in n.iter() {
@@ -69,6 +75,9 @@ fn expect_tx(flat: &Flat, enc: &Encoded, m: &Mutation, loc: &TxLoc, tix: usize, 
     out.ids.push(("tx-id", tix, blake2b_256(enc.span(loc.body)).to_vec()));
     for &d in &loc.datums {
         out.ids.push(("witness-datum", tix, blake2b_256(enc.span(d)).to_vec()));
+    }
+    for &d in &loc.datums {
+        out.ids.push(("witness-datum-lookup", tix, blake2b_256(enc.span(d)).to_vec()));
     }
     counts.push(("witness-datum", tix, loc.datums.len()));
     for &n in &loc.natives {
